@@ -174,6 +174,7 @@ func init() {
 		var mix []*scen.Cell
 		mix = append(mix, familyF2(e.Rep.Thorough())...)
 		mix = append(mix, familyF4(e.Rep.Thorough())...)
+		mix = append(mix, familyF6(e.Rep.Thorough())...)
 		e.Explore(mix, func(o *scen.Outcome, t *report.Tally) []report.Finding {
 			a := e.Analyze(o)
 			if a.Setup == nil || a.SetupC.Pkg == nil || len(a.SetupC.Errors) > 0 {
